@@ -16,7 +16,7 @@ A1T = ("Request-level engines rely on A1 (handlers hold the AppState mutex for t
 
 A3 = ("The broker talks to the server only through the harness's SimClient (the UistClient trait is the seam; per request "
       "the future is eager, lazy or Pending-delayed; insert_order and tick requests can be lost, tick and fetch_quotes responses can be lost, "
-      "each with Err returned to the broker); the reqwest client and real sockets are outside the simulation. Errors from now are not injected "
+      "each with Err returned to the broker; slow requests / responses let 50 ms - 10 min pass on the simulated clock, a paused tokio clock only the simulator advances); real sockets are outside the simulation, the shipped reqwest-based client runs over a stand-in transport in engine e2. Errors from now are not injected "
       "(the SUT unwraps them). Trades of a tick whose own response was lost are unknowable to any broker and are accounted as such. "
       "The holdings-map iteration order is scheduled through hook H2. Sampling, not proof.")
 
@@ -58,11 +58,11 @@ CHECKS = {
   "C03": ("E1 exchange+server", "seeded simulation with conservation invariants over snapshots and histories",
           "Structural conservation invariants (ids unique for life, admitted exactly once, at most one full fill, delete removes exactly one, admitted = filled + cancelled + resting) checked after every operation of long mixed histories with bad-cancel faults.",
           A1, "5/E1/C03"),
-  "C07": ("E1 exchange+server", "seeded simulation of the server clock under client interleavings",
-          "Per backtest the k-th tick must do exactly what a clone of the exchange does on the harness's own row k (differential oracle), report has_next iff k<N and leave clock/fetch_quotes/now on date k+1; loop clients tick to the end (bounded liveness: exactly N ticks), others tick past it; a created backtest must answer every later request; other clients interleave; datasets are loaded date by date or symbol by symbol, with negative, huge and irregular dates.",
-          A1, "5/E1/C07"),
+  "C07": ("E1 exchange+server, E5 threads", "seeded simulation of the server clock under client interleavings; seeded thread scheduling of the real handlers with a linearizability oracle",
+          "Per backtest the k-th tick must do exactly what a clone of the exchange does on the harness's own row k (differential oracle), report has_next iff k<N and leave clock/fetch_quotes/now on date k+1; loop clients tick to the end (bounded liveness: exactly N ticks), others tick past it; a created backtest must answer every later request; other clients interleave; datasets are loaded date by date or symbol by symbol, with negative, huge and irregular dates, one in four through Serialize/Deserialize. Thread level: as for C08 (engine E5: real handlers on simulated threads, also two requests in flight on one worker; linearizable, no deadlock, no panic).",
+          A1T, "5/E1/C07, 12.7"),
   "C08": ("E1 exchange+server, E2 twins, E5 threads", "seeded client scheduling (uniform and PCT-style) with digests and solo re-runs; seeded thread scheduling of the real handlers with a linearizability oracle",
-          "Request level: ids are compared with every id ever handed out; after every request the digest of every other backtest must be unchanged; unknown targets (also near-miss dataset names) must be rejected without effect; a created backtest never vanishes; each backtest's response stream is compared with a solo re-run on a fresh server; TestClient runs as a third twin. Thread level: 2-4 simulated threads drive the real Uist and Jura actix handlers on one shared state, a seeded scheduler decides every lock hand-over, and the history must be linearizable against sequential in-process execution (also: no deadlock, no panic).",
+          "Request level: ids are compared with every id ever handed out; after every request the digest of every other backtest must be unchanged; unknown targets (also near-miss dataset names) must be rejected without effect; a created backtest never vanishes; each backtest's response stream is compared with a solo re-run on a fresh server; TestClient runs as a third twin. Thread level: 2-4 simulated threads drive the real Uist and Jura actix handlers on one shared state (one thread in three with two requests in flight at a time), a seeded scheduler decides every lock hand-over, and the history must be linearizable against sequential in-process execution (also: no deadlock, no panic).",
           A1T, "5/E1/C08, 12.7"),
   "C18": ("E1 exchange+server", "seeded simulation with the property's IOC/GTC/trigger table as executable oracle",
           "Every Jura tick is compared with the property's table (one-shot IOC with 10% slippage, resting GTC, four trigger directions, child order kind/fields/fresh id announced, child not eligible on the firing tick) over all eight constructors plus deserialised orders with is_market=false and trigger_px != limit_px; what the exchange did structurally (who left the book, who appeared) is observed from snapshots.",
